@@ -307,6 +307,39 @@ def run(ctx, escalated=False):
     c.data = {"kind": "deep-dry-run", "scenario": dict(deep, edges="0>i for every i"), "ops": "%d polls" % (n_deep + 2)}
     extra.append(c)
     ctx.count("deep-dry-run")
+    # directed: a dry run in a study directory that holds the leftovers of an interrupted *real* run of
+    # the same study (seeded change C17-n let `Conductor.initialize` resume from the graph pickle it
+    # finds there - a graph that is not in dry-run mode)
+    import condsim
+    from maestrowf.conductor import Conductor
+    chain = {"description": {"name": "again", "description": "a real run first, then a dry run"},
+             "study": [{"name": "prep", "description": "d", "run": {"cmd": "echo p"}},
+                       {"name": "sim", "description": "d", "run": {"cmd": "echo s", "depends": ["prep"]}},
+                       {"name": "post", "description": "d", "run": {"cmd": "echo t", "depends": ["sim"]}}]}
+    for k in range(3 if quick else 30):
+        script = [{}, {"prep": "RUNNING"}, {"prep": "FINISHED"}, {"sim": "RUNNING"}, {"sim": "RUNNING"}]
+        condsim.run(ctx, ctx.rng, "again%d" % k, spec=chain, max_polls=ctx.rng.choice([1, 2, 3]),
+                    force={"_script": script, "throttle": 0, "rlimit": 1, "attempts": 1, "use_tmp": False,
+                           "hash_ws": False})
+        r = condsim.run(ctx, ctx.rng, "again%d" % k, spec=chain,
+                        force={"dry": True, "throttle": 0, "rlimit": 1, "attempts": 1, "use_tmp": False,
+                               "hash_ws": False})
+        if r is None:
+            continue
+        mon = []
+        touched = [ev for ev in S.WORLD.all_events if ev[0] in ("submit", "check", "cancel", "local")]
+        if touched:
+            mon.append(("no-side-effects", "a dry run in a directory that holds an earlier real run reached "
+                        "the scheduler: %s" % (touched[:4],)))
+        table = Conductor.get_status(os.path.join(ctx.scratch, "cond", "cagain%d" % k))
+        if any(x != "DRYRUN" for x in table.get("State", [])) or len(table.get("State", [])) != 3:
+            mon.append(("states", "a dry run in a directory that holds an earlier real run reports %s"
+                        % (list(zip(table.get("Step Name", []), table.get("State", []))),)))
+        if r["ret"] != "FINISHED":
+            mon.append(("terminates-successfully", "the dry run returned %s" % r["ret"]))
+        extra.append(Case({"kind": "dry-run-after-a-real-run", "spec": r["spec"], "returned": r["ret"]}, [], [],
+                          mon[:3], True))
+        ctx.count("dry-run-after-a-real-run")
     cases = cases + extra
     diffs = compare([c for c in cases if c.lines])
     account(ctx, extra)
